@@ -174,6 +174,10 @@ def _map(ctx: Ctx) -> Iterator[Event]:
             yield Event("map", "dsge", ph, ex.exc, ex.choices, genotype=gt, source=ex.source, depth_limit=d)
         return
     alphabet = stack_alphabet(ctx.g) if rep_kind == "stack" else GENES
+    if rep_kind == "stack":
+        # the stack mapping needs one gene per node and per choice: use the longest genome the size of the
+        # alphabet allows (|A|^L genotypes)
+        L = max(L, 5 if len(alphabet) <= 4 else (4 if len(alphabet) <= 6 else 3))
     for dna in gene_lists(L, alphabet):
         dna = list(dna)
         if rep_kind == "ge":
@@ -298,9 +302,10 @@ def standard_units(tier: str, family=None, deciders=("maxdepth", "full", "pigrow
                        "max_execs": 400 if tier == "quick" else 5000})
     small = [s for s in fam if s["name"].split(":")[0] in
              ("S1", "S2", "S3", "S5", "S6", "S7", "S8", "S9", "S10", "S11", "S12", "S13", "S14", "S15", "S16", "S17", "S18", "S19", "S20", "S21")]
-    small += [s for s in fam if s["name"].startswith(("F1:", "G1:"))]
+    small += [s for s in fam if s["name"].startswith(("F1:", "G1:")) and s["name"].count(",") == 0]
     if tier != "quick":
-        small = fam
+        # thorough: the two-abstract and nested families as well (the two-field F1/G2 grammars stay with tree creation)
+        small += [s for s in fam if s["name"].startswith(("F2:", "F3:", "G3:"))]
     for spec in small:
         for rep in reps_map:
             us.append({"kind": "map", "spec": spec, "rep": rep, "depth_off": 1, "L": 3 if tier == "quick" else 4,
